@@ -4,6 +4,7 @@ import GdcVerif.Lemmas.JpegLossless
 import GdcVerif.Lemmas.T81H
 import GdcVerif.Lemmas.T81HStream
 import GdcVerif.Lemmas.JllEndToEnd
+import GdcVerif.Lemmas.T81HEncDec
 /-!
   C13 — JPEG Lossless streams and decoders conform to T.81 Annex H.
 
@@ -183,5 +184,31 @@ theorem spec_bits_and_codes_agree (scan : List Nat) (bits vals : List Nat) :
     ecsBits scan = (unstuff scan).flatMap (fun b => bitsOf b 8) ∧
     codeTable bits vals = vals.zip (specCodes bits 0 0) :=
   ⟨ecsBits_eq scan, codeTable_eq bits vals⟩
+
+/-! ## STREAM LEVEL, decoder direction — the model decoders decode the independent spec ENCODER's streams -/
+
+/-- `modelDecode (specEncode img cfg) = img`: every interchange stream the independent T.81 encoder
+    (`Spec/T81HEnc.lean`: arbitrary component ids, an arbitrary table destination 0..3 per component,
+    arbitrary valid Huffman tables — several DHT segments, later ones replacing earlier ones at the
+    same destination — one interleaved scan) produces is decoded by the byte-exact model of
+    `lossless.Decode` (sv1 = false) resp. `lossless14sv1.Decode` (sv1 = true, Ss = 1, distinct ids) to
+    exactly the source samples in the native byte layout, with the same width, height, component
+    count and precision — for every geometry 1..65535, 1 or 3 components, P 2..16; for the
+    jpeg/lossless decoder on the (predictor, geometry) classes of `EdgeConform` (predictors 1 and 4
+    everywhere, see `edge_conform_exact`). -/
+theorem decoder_accepts_spec_streams (sv1 : Bool) (P w h : Nat) (planes : List (List Int)) (cfg : EncCfg)
+    (bytes : List Nat) (hcfg : CfgOk sv1 planes.length cfg) (himg : ImgOk sv1 P w h cfg.sel planes)
+    (henc : specEncode P w h planes cfg = some bytes) :
+    Stream.decode sv1 bytes =
+      .ok ((List.range (w * h)).flatMap (fun i => (List.range planes.length).flatMap fun c =>
+             bytesOf P ((planes.getD c []).getD i 0)), w, h, planes.length, P) :=
+  decode_specEncode_gen sv1 P w h planes cfg bytes hcfg himg henc
+
+/-- non-vacuity: three components on destinations 2, 0, 1 with three different tables (destination 1
+    written twice), a 2×2 8-bit image; the spec encoder succeeds on it -/
+example : CfgOk false 3 exCfg ∧ CfgOk true 3 exCfg ∧ ImgOk false 8 2 2 exCfg.sel exPlanes ∧
+    (specEncode 8 2 2 exPlanes exCfg).isSome = true := by
+  refine ⟨by decide, by decide, by decide, ?_⟩
+  rw [specEncode_isSome]; decide
 
 end T81H
